@@ -47,6 +47,12 @@ func (g *cfGen) gen2(depth int, inLoop, inSw bool) *cfStmt {
 		}
 		return &cfStmt{kind: "brk"}
 	}
+	if k >= 96 || (depth <= 0 && k < 4) { // return (after a leaf, or bare)
+		if r.Bool() {
+			return &cfStmt{kind: "ret", n: g.id()}
+		}
+		return &cfStmt{kind: "ret"}
+	}
 	if depth <= 0 {
 		if (inLoop || inSw) && k < 25 {
 			return jump()
@@ -147,6 +153,11 @@ func (s *cfStmt) src(sb *strings.Builder) {
 		sb.WriteString("break\n")
 	case "cont":
 		sb.WriteString("continue\n")
+	case "ret":
+		if s.n != 0 {
+			fmt.Fprintf(sb, "t(%d)\n", s.n)
+		}
+		sb.WriteString("return\n")
 	case "sw":
 		sb.WriteString("switch {\n")
 		for i, k := range s.cs {
@@ -196,6 +207,11 @@ func (s *cfStmt) proto(w *[]string, leaves map[string]bool) {
 		s.a.proto(w, leaves)
 	case "brk", "cont":
 		*w = append(*w, s.kind)
+	case "ret":
+		*w = append(*w, "ret", fmt.Sprint(s.n))
+		if s.n != 0 {
+			leaves[fmt.Sprintf("a%d", s.n)] = true
+		}
 	case "sw": // swc c1 A1 (swc c2 A2 (… (swd D)))
 		for _, k := range s.cs {
 			*w = append(*w, "swc", fmt.Sprint(k.n))
@@ -250,8 +266,12 @@ func (m *cfRun) exec(s *cfStmt) string { // "", "brk", "cont"
 			m.trace = append(m.trace, fmt.Sprint(s.init))
 		}
 		for m.cond(s.n) {
-			if o := m.exec(s.a); o == "brk" {
+			o := m.exec(s.a)
+			if o == "brk" {
 				break
+			}
+			if o == "ret" {
+				return o
 			}
 			if s.p != 0 {
 				m.trace = append(m.trace, fmt.Sprint(s.p))
@@ -259,14 +279,23 @@ func (m *cfRun) exec(s *cfStmt) string { // "", "brk", "cont"
 		}
 	case "forever":
 		for {
-			if o := m.exec(s.a); o == "brk" {
+			o := m.exec(s.a)
+			if o == "brk" {
 				break
+			}
+			if o == "ret" {
+				return o
 			}
 		}
 	case "brk":
 		return "brk"
 	case "cont":
 		return "cont"
+	case "ret":
+		if s.n != 0 {
+			m.trace = append(m.trace, fmt.Sprint(s.n))
+		}
+		return "ret"
 	case "sw": // the first clause whose condition holds, else the default; break leaves the switch only
 		body := s.b
 		for _, k := range s.cs {
@@ -381,7 +410,7 @@ func (c *Ctx) c06One(s *cfStmt, sample bool) (lines, impl []string) {
 }
 
 func runC06(c *Ctx) error {
-	c.Rep.Rule = "control skeletons over the forms {simple statement, sequence, if/else, if, for with condition (with and without init/post), for {}, tagless switch with 1..3 clauses and an optional default written at any position, break, continue} with a fuel guard at every loop head: all skeletons of depth <= 2 over a reduced alphabet plus random ones to depth 5; for each: the compiled function body (optimizer off and on) compared with the model's assembly, and the printed trace compared with a native interpreter of Go's semantics; plus Go-toolchain runs of generated programs with switch/range/return; distinct = distinct skeleton; non-trivial = contains a loop with break or continue"
+	c.Rep.Rule = "control skeletons over the forms {simple statement, sequence, if/else, if, for with condition (with and without init/post), for {}, tagless switch with 1..3 clauses and an optional default written at any position, break, continue, return (bare or after a statement)} with a fuel guard at every loop head: all skeletons of depth <= 2 over a reduced alphabet plus random ones to depth 5; for each: the compiled function body (optimizer off and on) compared with the model's assembly, and the printed trace compared with a native interpreter of Go's semantics; plus Go-toolchain runs of generated programs with switch/range/return; distinct = distinct skeleton; non-trivial = contains a loop with break or continue"
 	n := 300
 	if c.Thorough() {
 		n = 12000
